@@ -114,6 +114,19 @@ def run_case(toks):
     return {"cfg": {}, "toks": toks, "ev": ev}
 
 
+def run_parse_only(toks, out):
+    """Diagnostic route: the real parser applied to octets produced by the specification's serialiser."""
+    from twisted.mail import imap4
+
+    ev = [{"e": "refser", "x": toks, "out": list(out), "exc": ""}]
+    try:
+        res = imap4.parseNestedParens(bytes(out))
+        ev.append({"e": "parse", "toks": flatten(res), "exc": ""})
+    except Exception as e:
+        ev.append({"e": "parse", "toks": [], "exc": type(e).__name__})
+    return {"cfg": {}, "toks": toks, "ev": ev}
+
+
 # ---------------------------------------------------------------- generators
 def strings_upto(alpha, L):
     import itertools
@@ -184,9 +197,13 @@ def key(toks):
     return json.dumps(toks, separators=(",", ":"))
 
 
-def variants(toks, cap=120):
+def variants(toks, cap=160):
     """One-move reductions, biggest first: delete item, unwrap list, delete octet, octet -> 'x'."""
     out = []
+    if len(toks) > 1:                       # biggest move first: a single item alone
+        for i, (tag, p) in enumerate(toks):
+            if tag in ("s", "nil", "i"):
+                out.append([toks[i]])
     for i, (tag, p) in enumerate(toks):
         if tag in ("s", "nil", "i"):
             out.append(toks[:i] + toks[i + 1:])
@@ -411,7 +428,7 @@ def run(ctx):
     nex = len(traces)
     ctx.exhaustive = True
     ctx.extra["exhaustive_string_len"] = L
-    for _ in range(ctx.pick(2500, 60000)):
+    for _ in range(ctx.pick(2500, 25000)):
         traces.append(run_case(random_struct(ctx.rng)))
     for t in traces:
         ctx.note_trace(t, nontrivial=nontrivial(t))
@@ -430,6 +447,23 @@ def run(ctx):
     ctx.extra["real_serialiser_vs_reference_tokeniser_checked"] = len(sample)
     ctx.extra["real_serialiser_vs_reference_tokeniser_mismatches"] = len(rr)
     ctx.impl_drift += len(rr)
+    # spec -> code (diagnostic): TLC's REFERENCE serialisation of every small structure fed to the real parser
+    from harness.core import extract_printed
+    rs = ctx.mc("ImapSexpMC", ctx.pick("ImapSexpSer.cfg", "ImapSexpSer.thorough.cfg"), label="reference serialisations printed")
+    if not rs.ok:
+        raise MachineryError("ImapSexpSer run failed: " + rs.error)
+    rts = []
+    for j in sorted({v[1] for v in extract_printed(rs.out, "BEH")}):
+        b = json.loads(j)
+        rts.append(run_parse_only(b["x"], b["out"]))
+    rr2 = ctx.validate("ImapSexpTrace", rts, count=False, shard_size=4000)
+    at1 = [x for x in rr2 if x.reached >= 1]
+    if len(at1) != len(rr2):
+        raise MachineryError("reference serialisation printed by TLC is not Ser(x) according to the trace spec")
+    ctx.extra["real_parser_on_reference_serialisation_checked"] = len(rts)
+    ctx.extra["real_parser_on_reference_serialisation_mismatches"] = len(rr2)
+    ctx.extra["real_parser_on_reference_serialisation_mismatch_classes"] = sorted({",".join(sorted(classes(rts[x.idx]["toks"]))) for x in rr2})[:40]
+    ctx.impl_drift += len(rr2)
     small = [t for t in good if sum(len(p) for _, p in t["toks"]) < 100]
     ctx.selftest_rejects("ImapSexpTrace", small[-300:], mutate, n=20)
 
